@@ -566,6 +566,37 @@ def string_family(tier):
     return out
 
 
+# ---- lifted allOf family: two object branches constraining ONE optional property p (member-level merge) -----------
+LIFT = {
+    "int": INT, "str": STR, "enum_ab": {"type": "string", "enum": ["a", "b"]}, "enum_bc": {"type": "string", "enum": ["b", "c"]},
+    "str_max3": {"type": "string", "maxLength": 3}, "nullable_str": {"type": ["string", "null"]},
+    "arr_int": {"type": "array", "items": INT}, "arr_min1": {"type": "array", "minItems": 1}, "tup2": {"type": "array", "items": [INT, INT], "minItems": 2, "maxItems": 2},
+    "obj_x": {"type": "object", "properties": {"x": INT}}, "obj_y_req": {"type": "object", "properties": {"y": STR}, "required": ["y"]},
+    "any": {}, "num": {"type": "number"}, "num_enum": {"type": "number", "enum": [1, 2.5, 10]}, "int_enum": {"type": "integer", "enum": [1, 2]}, "bool": BOOL,
+    "u8": {"type": "integer", "format": "uint8", "minimum": 0}, "uuid": {"type": "string", "format": "uuid"},
+}
+LIFT_QUICK = ["int", "str", "enum_ab", "enum_bc", "arr_int", "arr_min1", "tup2", "obj_x", "any", "num", "num_enum", "int_enum"]
+
+
+def lift_family(tier):
+    import itertools as _it
+    out = []
+    names = LIFT_QUICK if tier == "quick" else list(LIFT)
+    for a, b in _it.product(names, repeat=2):
+        if a == b and a not in ("num_enum", "enum_ab", "obj_x", "arr_int"):
+            continue
+        if "any" in (a, b) and (a.startswith("obj_") or b.startswith("obj_")):
+            continue   # the universe of `{}` holds objects with members the object branch does not declare; C03 only speaks about declared data
+        fa = obj({"name": STR, "p": copy.deepcopy(LIFT[a])}, ["name"])
+        fb = obj({"p": copy.deepcopy(LIFT[b])})
+        sh = L("lift[%s,%s]" % (a, b), {"allOf": [fa, fb]}, ff=True, enf=False, fam=True)
+        sh["tg"] = {"lf_a": a, "lf_b": b}
+        sh["sup"] = False
+        sh["only_ctx"] = ["def"] if tier == "quick" else ["def", "member_opt"]
+        out.append(sh)
+    return out
+
+
 def shapes_depth2(tier):
     """(L ∪ K(default leaves)) — list of shape dicts."""
     out = []
@@ -589,6 +620,7 @@ def shapes_depth2(tier):
     out.extend(refine_family(tier))
     out.extend(array_family(tier))
     out.extend(string_family(tier))
+    out.extend(lift_family(tier))
     return out
 
 
